@@ -110,6 +110,8 @@ def replay_user_velocities(model):
     try:
         md.initialize_velocity(mol2)
         out["at_rest_changed"] = float(mol2.velocities.abs().max())
+        if out["at_rest_changed"] > 0:
+            out["reproduced"] = True  # a field at rest was replaced by a draw
     except RuntimeError as e:
         out["at_rest_raises"] = str(e)
         out["reproduced"] = True
